@@ -19,6 +19,18 @@ def c02_post(m, env):
     shutil.rmtree(env["params"].get("share_dir", ""), ignore_errors=True)
 
 REGISTRY = {
+    "C03": {"level": "exploration", "tiers": {
+        "quick": {"workers": 8, "n_hist": 480},
+        "thorough": {"workers": 16, "n_hist": 30000}}},
+    "C04": {"level": "exploration", "tiers": {
+        "quick": {"workers": 8, "n_hist": 480, "n_iso": 8},
+        "thorough": {"workers": 16, "n_hist": 30000, "n_iso": 64}}},
+    "C10": {"level": "exploration", "tiers": {
+        "quick": {"workers": 8, "n_hist": 480},
+        "thorough": {"workers": 16, "n_hist": 30000}}},
+    "C16": {"level": "exploration", "tiers": {
+        "quick": {"workers": 8, "n_hist": 400, "n_map": 320},
+        "thorough": {"workers": 16, "n_hist": 24000, "n_map": 16000}}},
     "C18": {
         "level": "exploration",
         "tiers": {
